@@ -20,7 +20,6 @@ import (
 	"context"
 	"encoding/json"
 	"fmt"
-	"hash/fnv"
 	"io"
 	"log"
 	"os"
@@ -28,6 +27,8 @@ import (
 	"sort"
 	"strings"
 	"sync"
+	"sync/atomic"
+	"time"
 
 	"github.com/inspirer/textmapper/compiler"
 	"github.com/inspirer/textmapper/syntax"
@@ -55,6 +56,7 @@ type expr struct {
 	S []*expr `json:"s,omitempty"`
 
 	depth, leaves int
+	lang          atomic.Pointer[extsem.Lang] // memoized denotation (nodes are shared between bodies)
 }
 
 var leafKinds = []string{"a", "b", "X", "setab", "setna", "la"}
@@ -221,23 +223,32 @@ var (
 func initLangs() {
 	langOnce.Do(func() {
 		k := numTerms
-		lA, lB, lC = extsem.Sym(k, maxLen, tA), extsem.Sym(k, maxLen, tB), extsem.Sym(k, maxLen, tC)
-		lEps = extsem.Eps(k, maxLen)
-		lX = extsem.Plus(lC) // X: tc | tc X
-		lSetAB = extsem.Union(lA, lB)
+		lA, lB, lC = extsem.LSym(k, maxLen, tA), extsem.LSym(k, maxLen, tB), extsem.LSym(k, maxLen, tC)
+		lEps = extsem.LEps(k, maxLen)
+		lX = extsem.LPlus(lC) // X: tc | tc X
+		lSetAB = extsem.LUnion(lA, lB)
 		// set(~ta): complement over all terminals of the grammar. The implementation's universe
 		// includes eoi and invalid_token (syntax/set.go: terms = len(m.Terminals)); C15 examines
 		// that choice, here we simply side with it.
-		lSetNA = extsem.Empty(k, maxLen)
+		lSetNA = extsem.LEmpty(k, maxLen)
 		for t := 0; t < k; t++ {
 			if t != tA {
-				lSetNA.AddAll(extsem.Sym(k, maxLen, t))
+				lSetNA.AddAll(extsem.LSym(k, maxLen, t))
 			}
 		}
 	})
 }
 
 func denote(e *expr) *extsem.Lang {
+	if l := e.lang.Load(); l != nil {
+		return l
+	}
+	l := denote1(e)
+	e.lang.Store(l)
+	return l
+}
+
+func denote1(e *expr) *extsem.Lang {
 	switch e.K {
 	case "a":
 		return lA
@@ -252,19 +263,19 @@ func denote(e *expr) *extsem.Lang {
 	case "la":
 		return lEps
 	case "opt":
-		return extsem.Opt(denote(e.S[0]))
+		return extsem.LOpt(denote(e.S[0]))
 	case "star":
-		return extsem.Star(denote(e.S[0]))
+		return extsem.LStar(denote(e.S[0]))
 	case "plus":
-		return extsem.Plus(denote(e.S[0]))
+		return extsem.LPlus(denote(e.S[0]))
 	case "sepplus":
-		return extsem.SepPlus(denote(e.S[0]), lA)
+		return extsem.LSepPlus(denote(e.S[0]), lA)
 	case "sepstar":
-		return extsem.Opt(extsem.SepPlus(denote(e.S[0]), lA))
+		return extsem.LOpt(extsem.LSepPlus(denote(e.S[0]), lA))
 	case "seq":
-		return extsem.Concat(denote(e.S[0]), denote(e.S[1]))
+		return extsem.LConcat(denote(e.S[0]), denote(e.S[1]))
 	case "alt":
-		return extsem.Union(denote(e.S[0]), denote(e.S[1]))
+		return extsem.LUnion(denote(e.S[0]), denote(e.S[1]))
 	}
 	panic("kind " + e.K)
 }
@@ -272,7 +283,7 @@ func denote(e *expr) *extsem.Lang {
 func reference(e *expr) refLangs {
 	initLangs()
 	s := denote(e)
-	z := extsem.Union(extsem.Concat(lB, s), extsem.Concat(extsem.Star(lA), lC))
+	z := extsem.LUnion(extsem.LConcat(lB, s), extsem.LConcat(extsem.LStar(lA), lC))
 	return refLangs{S: s, Z: z, X: lX}
 }
 
@@ -490,6 +501,8 @@ type cas struct {
 	Expr *expr  `json:"expr"`
 	RR   int    `json:"rr,omitempty"` // bit i: i-th list (pre-order) is right-recursive (model mode)
 	Text string `json:"text,omitempty"`
+
+	ref *refLangs
 }
 
 func symString(w []int) string {
@@ -576,7 +589,11 @@ func check(cs *cas) (res result) {
 		res.what = fmt.Sprintf("body %q produced no plain rules: %s", e.String(), msg)
 		return
 	}
-	want := reference(e)
+	if cs.ref == nil {
+		r := reference(e)
+		cs.ref = &r
+	}
+	want := *cs.ref
 	langs := extsem.PlainLangs(numTerms, maxLen, len(p.names), p.rules)
 	byName := map[string]int{}
 	for i, n := range p.names {
@@ -615,7 +632,7 @@ func check(cs *cas) (res result) {
 		}
 	}
 	// Independent cross-check of the bounded-language engine against cfgoracle (same plain rules).
-	if want.S.Size() <= 120 && want.Z.Size() <= 400 {
+	if cs.Mode == "tm" && want.S.Size() <= 12 {
 		g := &gramenum.Gram{T: numTerms, N: len(p.names) - numTerms}
 		for _, r := range p.rules {
 			gr := gramenum.Rule{LHS: r.LHS + 1}
@@ -642,12 +659,7 @@ func check(cs *cas) (res result) {
 		}
 		res.crossed = true
 	}
-	h := fnv.New64a()
-	for _, s := range want.S.Strings(0) {
-		io.WriteString(h, s)
-		h.Write([]byte{0})
-	}
-	res.sHash = h.Sum64()
+	res.sHash = want.S.Hash()
 	res.nontriv = want.S.Size() > 0 && !want.S.Full()
 	return
 }
@@ -655,9 +667,9 @@ func check(cs *cas) (res result) {
 // ---------- enumeration
 
 type level struct {
-	name  string
-	cases func(yield func(*expr))
-	count int
+	name   string
+	bodies func() []*expr
+	masks  string // model layer: all | nonzero | ones | none
 }
 
 func main() { core.Main("C13", "exploration", run, replay, nil) }
@@ -667,75 +679,71 @@ func run(c *core.Ctx) {
 	if pf := os.Getenv("C13_PROF"); pf != "" {
 		f, _ := os.Create(pf)
 		pprof.StartCPUProfile(f)
-		defer pprof.StopCPUProfile()
+		go func() { time.Sleep(40 * time.Second); pprof.StopCPUProfile(); os.Exit(0) }()
 	}
-	c.Rule("bodies enumerated by (depth, leaves), simplest first: every expression over 6 leaf kinds, 5 unary and 2 binary operators " +
-		"of depth<=2, depth 3 with <=2 leaves, and every depth-3 operator shape with 3..4 leaves under fixed leaf labelings (thorough: all " +
-		"labelings, budget permitting); each body through compiler.Compile (tm) and through syntax.Expand on a hand-built model with every " +
-		"subset of lists right-recursive (model). nontrivial = distinct denoted languages of S (as string sets up to length 6) that are " +
-		"neither empty nor everything")
+	c.Rule("bodies enumerated by (depth, leaves), simplest first, over 6 leaf kinds {ta, tb, X, set(ta|tb), set(~ta), (?= X)}, 5 unary and 2 binary " +
+		"operators: every expression of depth<=2 and of depth 3 with one leaf; every depth-3 operator shape with 2..4 leaves under a fixed list of leaf " +
+		"labelings (thorough: all 36 labelings for 2 leaves, all 216 for 3 leaves, then 4 leaves under 24 labelings, budget permitting). Each body goes " +
+		"through compiler.Compile (tm layer) and through syntax.Expand on a hand-built model with subsets of its lists right-recursive (model layer). " +
+		"nontrivial = distinct denoted languages of S (string sets up to length 6) that are neither empty nor everything")
 	c.Assume("set(~ta) is the complement over all terminals of the grammar including eoi and invalid_token (sides with syntax/set.go; C15 owns that question)")
 	c.Assume("a lookahead marker (?= X) denotes the empty string")
 
-	full := buildBuckets(leafKinds, 3, 2)
 	d2 := buildBuckets(leafKinds, 2, 4)
+	d3 := buildBuckets(leafKinds, 3, 1)
 	shapes := buildBuckets([]string{"a"}, 3, 4)
 
 	var levels []level
-	add := func(name string, list []*expr) {
-		l := list
-		levels = append(levels, level{name: name, count: len(l), cases: func(y func(*expr)) {
-			for _, e := range l {
-				y(e)
-			}
-		}})
-	}
 	for d := 0; d <= 2; d++ {
 		for n := 1; n <= 4; n++ {
-			if len(d2[d][n]) > 0 {
-				add(fmt.Sprintf("depth%d/leaves%d", d, n), d2[d][n])
+			if len(d2[d][n]) == 0 {
+				continue
 			}
+			list := d2[d][n]
+			masks := "nonzero"
+			if d <= 1 || n <= 2 {
+				masks = "all" // mask 0 repeats the tm layer: validates the hand-built model
+			}
+			levels = append(levels, level{name: fmt.Sprintf("depth%d/leaves%d", d, n), bodies: func() []*expr { return list }, masks: masks})
 		}
 	}
-	add("depth3/leaves1", full[3][1])
-	add("depth3/leaves2", full[3][2])
-	quickLabelings := [][]string{
-		{"a", "a", "a", "a"}, // equal elements: extracted nonterminals are reused
-		{"a", "b", "X", "a"},
-		{"X", "la", "a", "setab"},
-		{"setna", "a", "la", "b"},
-		{"la", "X", "setab", "setna"},
-	}
-	labeled := func(n int, labs [][]string) level {
+	levels = append(levels, level{name: "depth3/leaves1", bodies: func() []*expr { return d3[3][1] }, masks: "nonzero"})
+	labeled := func(n int, labs [][]string, masks string) level {
 		sh := shapes[3][n]
-		return level{name: fmt.Sprintf("depth3/leaves%d/%d-labelings", n, len(labs)), count: len(sh) * len(labs), cases: func(y func(*expr)) {
+		return level{name: fmt.Sprintf("depth3/leaves%d/%d-labelings", n, len(labs)), masks: masks, bodies: func() []*expr {
+			var out []*expr
 			for _, lab := range labs {
 				for _, s := range sh {
 					pos := 0
-					y(relabel(s, lab, &pos))
+					out = append(out, relabel(s, lab, &pos))
 				}
 			}
+			return out
 		}}
 	}
-	levels = append(levels, labeled(3, quickLabelings), labeled(4, quickLabelings))
+	lab2 := [][]string{{"a", "a"}, {"a", "X"}, {"la", "b"}, {"setab", "setna"}}
+	lab3 := [][]string{{"a", "a", "la"}, {"X", "setna", "b"}}
+	lab4 := [][]string{{"a", "la", "a", "X"}}
+	levels = append(levels, labeled(2, lab2, "ones"), labeled(3, lab3, "ones"), labeled(4, lab4, "none"))
 	if !c.Quick() {
-		var all3, all4 [][]string
+		var all2, all3, more4 [][]string
 		for _, a := range leafKinds {
 			for _, b := range leafKinds {
+				all2 = append(all2, []string{a, b})
 				for _, d := range leafKinds {
 					all3 = append(all3, []string{a, b, d})
-					for _, f := range leafKinds {
-						all4 = append(all4, []string{a, b, d, f})
-					}
 				}
 			}
 		}
-		levels = append(levels, labeled(3, all3), labeled(4, all4))
+		for i := 0; i < 24; i++ { // 24 labelings of 4 leaves: every leaf kind in every position, mixed neighbours
+			more4 = append(more4, []string{leafKinds[i%6], leafKinds[(i/2+i)%6], leafKinds[(i*5+1)%6], leafKinds[(i/6+i*2)%6]})
+		}
+		levels = append(levels, labeled(2, all2, "nonzero"), labeled(3, all3, "ones"), labeled(4, more4, "ones"))
 	}
 
 	var mu sync.Mutex
 	distinct := map[uint64]bool{}
-	var nCross, nConfl, nModel, nRR int64
+	var nCross, nConfl, nModel, nRR, nBodies int64
 	stopped := false
 	for _, lv := range levels {
 		if stopped {
@@ -745,9 +753,8 @@ func run(c *core.Ctx) {
 			c.Capped("levels from " + lv.name + " on were not enumerated (budget)")
 			break
 		}
-		var batch []*expr
-		lv.cases(func(e *expr) { batch = append(batch, e) })
-		const chunk = 128
+		batch := lv.bodies()
+		const chunk = 64
 		nChunks := (len(batch) + chunk - 1) / chunk
 		expired := false
 		core.ParallelFor(nChunks, 16, func(ci int) {
@@ -762,21 +769,34 @@ func run(c *core.Ctx) {
 				hi = len(batch)
 			}
 			for _, e := range batch[lo:hi] {
-				var todo []*cas
-				todo = append(todo, &cas{Mode: "tm", Expr: e, Text: grammarText(e)})
-				nl := countLists(e)
-				for mask := 0; mask < 1<<uint(nl); mask++ {
-					todo = append(todo, &cas{Mode: "model", Expr: e, RR: mask})
+				rl := reference(e)
+				todo := []*cas{{Mode: "tm", Expr: e, Text: grammarText(e), ref: &rl}}
+				if nl := countLists(e); lv.masks != "none" {
+					ones := 1<<uint(nl) - 1
+					switch lv.masks {
+					case "ones":
+						if nl > 0 {
+							todo = append(todo, &cas{Mode: "model", Expr: e, RR: ones, ref: &rl})
+						}
+					default:
+						for mask := 0; mask <= ones; mask++ {
+							if mask == 0 && lv.masks != "all" {
+								continue
+							}
+							todo = append(todo, &cas{Mode: "model", Expr: e, RR: mask, ref: &rl})
+						}
+					}
 				}
 				for _, cs := range todo {
 					r := check(cs)
 					c.Eval(1)
 					mu.Lock()
 					if cs.Mode == "tm" {
+						nBodies++
 						if r.confl {
 							nConfl++
 						}
-						if r.key == "" && r.nontriv && !distinct[r.sHash] {
+						if r.key == "" && r.nontriv {
 							distinct[r.sHash] = true
 						}
 						if r.crossed {
@@ -795,7 +815,6 @@ func run(c *core.Ctx) {
 				}
 			}
 		})
-		c.Add("bodies", int64(len(batch)))
 		c.Outcome("level:"+lv.name, int64(len(batch)))
 		if expired {
 			c.Capped("level " + lv.name + " was cut short (budget)")
@@ -807,14 +826,16 @@ func run(c *core.Ctx) {
 		}
 	}
 	c.Nontrivial(int64(len(distinct)))
+	c.Set("bodies", nBodies)
 	c.Set("distinct_languages_of_S", len(distinct))
 	c.Set("bodies_with_conflicts_still_checked", nConfl)
 	c.Set("cross_checked_with_cfgoracle", nCross)
 	c.Set("model_layer_cases", nModel)
 	c.Set("model_layer_right_recursive_cases", nRR)
 	c.Outcome("tm-compiled-with-conflicts", nConfl)
+	c.Outcome("tm-compiled-without-conflicts", nBodies-nConfl)
 	c.Outcome("model-right-recursive", nRR)
-	for _, e := range []*expr{d2[1][1][0], d2[2][3][17], full[3][2][4000]} {
+	for _, e := range []*expr{d2[1][1][0], d2[2][3][17], d2[2][4][5000]} {
 		c.Sample(e.String())
 	}
 }
